@@ -6,16 +6,18 @@ def families(tier):
     q = tier == "quick"
     F = cc.fam
     fams = [
-        F("external", "append", "append", fail=1, crash=1),
+        F("external", "append", "append", fail=0, crash=1),
         F("external", "append", "append", fail=0, lost=1, crash=0),
+        F("external", "append", "none", fail=1, crash=1),
         # double fault (lost response of the put + failed EXT.get): the residual known finding
         F("external", "append", "none", r3=99, fail=1, lost=1, crash=0),
-        F("external", "append", "none", r3=2, fail=1, crash=1),
-        F("external", "append", "append", init="onboard", fail=0, crash=1),
-        F("external", "restore", "delete", fail=0, crash=1, r3=1),
+        F("external", "append", "none", r3=2, fail=0, crash=1),
+        F("external", "append", "append", init="onboard", r3=1, fail=0, crash=1),
+        F("external", "restore", "delete", fail=0, crash=1, r3=99),
     ]
     if not q:
         fams += [
+            F("external", "append", "append", fail=1, crash=1),
             F("external", "append", "append", fail=2, crash=1),
             F("external", "append", "append", fail=1, lost=1, crash=1, r5=0),
             F("external", "append", "overwrite", op4="append", att=(2, 2, 2), fail=0, crash=1),
